@@ -33,7 +33,7 @@ class FnSpec:
         self.src = None
 
 
-_SUB = re.compile(r'^(ret|sig|attr|body_start|body_end|loop_iter|loop|loop_body_start|loop_end|after_loop|hint_before|hint_after|replace|flag|closure)\b\s*(.*?):\s*$')
+_SUB = re.compile(r'^(fields|ret|sig|attr|body_start|body_end|loop_iter|loop|loop_body_start|loop_end|after_loop|hint_before|hint_after|replace|flag|closure)\b\s*(.*?):\s*$')
 
 
 def parse_spec_file(path):
@@ -55,7 +55,12 @@ def parse_spec_file(path):
             flush()
             in_extra = False
             toks = line[4:].split()
-            if toks[0] == 'fn':
+            if toks[0] == 'struct':
+                cur = FnSpec('struct ' + toks[1], [])
+                cur.src = '%s:%d' % (os.path.basename(path), ln)
+                cur.flags.add('struct')
+                fnspecs.append(cur)
+            elif toks[0] == 'fn':
                 props = []
                 for t in toks[2:]:
                     if t.startswith('props='):
@@ -95,7 +100,9 @@ def apply_rewrites(src, rules, fname):
     """rules: list of dicts(kind='lit'|'re', pat, rep, count=int|None|'+', name)."""
     log = []
     for r in rules:
-        if r.get('kind', 'lit') == 'lit':
+        if r.get('kind') == 'assert_diverge':
+            new, n = assert_diverge(src)
+        elif r.get('kind', 'lit') == 'lit':
             n = src.count(r['pat'])
             new = src.replace(r['pat'], r['rep'])
         else:
@@ -107,6 +114,35 @@ def apply_rewrites(src, rules, fname):
         log.append((r['name'], n))
         src = new
     return src, log
+
+
+def assert_diverge(src):
+    """R-assert-diverge: `assert!(C, fmt...)` -> `if !(C) { crate::vstubs::vpanic(); }` (debug_assert! untouched)."""
+    n = 0
+    while True:
+        m = rsx.mask(src)
+        mm = re.search(r'(?<![\w!])assert!\(', m)
+        if not mm:
+            return src, n
+        op = mm.end() - 1
+        cl = rsx.match_close(m, op)
+        # first top-level comma
+        depth, cut = 0, cl
+        for k in range(op + 1, cl):
+            c = m[k]
+            if c in '([{':
+                depth += 1
+            elif c in ')]}':
+                depth -= 1
+            elif c == ',' and depth == 0:
+                cut = k
+                break
+        cond = src[op + 1:cut].strip()
+        end = cl + 1
+        if src[end:end + 1] == ';':
+            end += 1
+        src = src[:mm.start()] + 'if !(%s) { crate::vstubs::vpanic(); }' % cond + src[end:]
+        n += 1
 
 
 def inj(text):
@@ -126,6 +162,20 @@ def inject(src, fnspecs, fname, warnings):
     edits = []  # (pos, end, text)  replace src[pos:end] by text ; insert if pos==end
     used = set()
     for sp in fnspecs:
+        if 'struct' in sp.flags:
+            name = sp.path.split()[1]
+            mm = re.search(r'\bstruct\s+%s\b[^;{]*\{' % re.escape(name), m)
+            if not mm:
+                raise LostAnchor('spec %s: struct %s not found in %s' % (sp.src, name, fname))
+            close = rsx.match_close(m, mm.end() - 1)
+            for kind, arg, text, ln in sp.parts:
+                if kind == 'fields':
+                    edits.append((close, close, inj(text.rstrip('\n') + '\n')))
+                elif kind == 'attr':
+                    # before the struct keyword and its attributes/visibility: insert right before `pub struct`/`struct`
+                    st = m.rfind('\n', 0, mm.start()) + 1
+                    edits.append((st, st, inj(text.strip() + '\n')))
+            continue
         path, ordinal = sp.path, 1
         mm = re.match(r'(.*)#(\d+)$', path)
         if mm:
